@@ -1070,3 +1070,89 @@ pub proof fn lemma_v3_connect_packet_prefix(c: Connect, k: int)
     if k >= hl { lemma_connect_prefix(c, k - hl); }
     lemma_v3_prefix_of_frame(0x10u8, c.enc(), k, h);
 }
+
+// ===================================================================
+// C08 at spec level: a stream of back-to-back v3 packets is framed without loss or overlap.
+// Reading one packet at a time and advancing by the reported length returns exactly the packets that were
+// encoded, in order; the lengths add up to the stream length; what follows the last packet is left untouched
+// (`rest`), and on an exhausted stream the next read reports Incomplete (end of input), never an error.
+// ===================================================================
+pub open spec fn rt_ok3(p: Packet) -> bool {
+    match p {
+        Packet::Pingreq => true, Packet::Pingresp => true, Packet::Disconnect => true,
+        Packet::Connack(_) => true,
+        Packet::Puback(x) => x.0 != 0, Packet::Pubrec(x) => x.0 != 0, Packet::Pubrel(x) => x.0 != 0, Packet::Pubcomp(x) => x.0 != 0,
+        Packet::Unsuback(x) => x.0 != 0,
+        Packet::Publish(x) => x.valid() && name_ok(x.topic_name.text()) && qp_pid_ok(x.qos_pid) && x.enc().len() < 268435456,
+        Packet::Subscribe(x) => x.valid() && sub_items_wf(x.topics@) && x.pid.0 != 0 && x.topics@.len() > 0 && x.enc().len() < 268435456,
+        Packet::Unsubscribe(x) => x.valid() && unsub_items_wf(x.topics@) && x.pid.0 != 0 && x.topics@.len() > 0 && x.enc().len() < 268435456,
+        Packet::Suback(x) => x.valid() && x.pid.0 != 0 && x.enc().len() < 268435456,
+        Packet::Connect(c) => connect_wf3(c) && c.enc().len() < 268435456,
+    }
+}
+//@lemma props=C01,C07,C08,C10,C11
+pub proof fn lemma_v3_any_packet(p: Packet, rest: Seq<u8>)
+    requires rt_ok3(p)
+    ensures p3_packet(enc_packet3(p) + rest) == PR::<Packet, Error>::Ok(p, enc_packet3(p).len()), enc_packet3(p).len() >= 2
+{
+    hide(p3_packet); hide(name_ok); hide(connect_wf3); hide(sub_items_wf); hide(unsub_items_wf); hide(qp_pid_ok);
+    match p {
+        Packet::Pingreq => { lemma_v3_bodyless(0xC0u8, rest); }
+        Packet::Pingresp => { lemma_v3_bodyless(0xD0u8, rest); }
+        Packet::Disconnect => { lemma_v3_bodyless(0xE0u8, rest); }
+        Packet::Connack(c) => { lemma_v3_connack_packet(c, rest); }
+        Packet::Puback(x) => { lemma_v3_pid_packet(0x40u8, x, rest); }
+        Packet::Pubrec(x) => { lemma_v3_pid_packet(0x50u8, x, rest); }
+        Packet::Pubrel(x) => { lemma_v3_pid_packet(0x62u8, x, rest); }
+        Packet::Pubcomp(x) => { lemma_v3_pid_packet(0x70u8, x, rest); }
+        Packet::Unsuback(x) => { lemma_v3_pid_packet(0xB0u8, x, rest); }
+        Packet::Publish(x) => { lemma_v3_publish_packet(x, rest); }
+        Packet::Subscribe(x) => { lemma_v3_subscribe_packet(x, rest); }
+        Packet::Unsubscribe(x) => { lemma_v3_unsubscribe_packet(x, rest); }
+        Packet::Suback(x) => { lemma_v3_suback_packet(x, rest); }
+        Packet::Connect(c) => { lemma_v3_connect_packet(c, rest); }
+    }
+}
+pub open spec fn enc_stream3(ps: Seq<Packet>) -> Seq<u8>
+    decreases ps.len()
+{
+    if ps.len() == 0 { Seq::empty() } else { enc_packet3(ps[0]) + enc_stream3(ps.skip(1)) }
+}
+/// the reader: decode `n` packets one after the other, each time advancing by the length the decoder reports
+pub open spec fn p3_stream(s: Seq<u8>, n: nat) -> Option<(Seq<Packet>, nat)>
+    decreases n
+{
+    if n == 0 { Some((Seq::empty(), 0nat)) }
+    else { match p3_packet(s) {
+        PR::Ok(p, k) => if k > s.len() { None } else { match p3_stream(s.skip(k as int), (n - 1) as nat) {
+            Some((tl, m)) => Some((seq![p] + tl, k + m)),
+            None => None } },
+        _ => None } }
+}
+pub open spec fn all_rt_ok3(ps: Seq<Packet>) -> bool { forall|i: int| 0 <= i < ps.len() ==> rt_ok3(#[trigger] ps[i]) }
+//@lemma props=C08
+pub proof fn lemma_v3_stream_framing(ps: Seq<Packet>, rest: Seq<u8>)
+    requires all_rt_ok3(ps)
+    ensures p3_stream(enc_stream3(ps) + rest, ps.len()) == Some((ps, enc_stream3(ps).len())),
+            (enc_stream3(ps) + rest).skip(enc_stream3(ps).len() as int) =~= rest,
+    decreases ps.len()
+{
+    hide(p3_packet); hide(enc_packet3); hide(rt_ok3);
+    if ps.len() == 0 {
+        assert(Seq::<Packet>::empty() =~= ps);
+    } else {
+        let p = ps[0]; let tl = ps.skip(1);
+        let e = enc_packet3(p); let et = enc_stream3(tl);
+        let s = enc_stream3(ps) + rest;
+        assert(s =~= e + (et + rest));
+        lemma_v3_any_packet(p, et + rest);
+        assert(s.skip(e.len() as int) =~= et + rest);
+        assert(all_rt_ok3(tl)) by { assert forall|i: int| 0 <= i < tl.len() implies rt_ok3(#[trigger] tl[i]) by { assert(tl[i] == ps[i + 1]); } }
+        lemma_v3_stream_framing(tl, rest);
+        assert(seq![p] + tl =~= ps);
+    }
+}
+//@lemma props=C07,C08
+pub proof fn lemma_v3_end_of_input()
+    ensures p3_packet(Seq::<u8>::empty()) == PR::<Packet, Error>::Inc
+{ }
